@@ -29,6 +29,8 @@ pub enum Work {
     /// n connect requests at once (fills a small mailbox)
     ConnectFlood { n: u8, before_ms: u16 },
     Subscribe { before_ms: u16 },
+    /// the application takes a `Peer` handle (Network::peer) and still holds it at and after the shutdown
+    HoldPeerHandle { peer: u8, before_ms: u16 },
 }
 
 #[derive(Clone, Debug, Serialize, Deserialize, PartialEq, Eq, Hash)]
@@ -40,6 +42,9 @@ pub enum How {
     Concurrent(u8),
     /// every handle is dropped (no explicit call)
     DropHandles,
+    /// a first shutdown call is started and abandoned (its future dropped) after this many ms,
+    /// then shutdown is called again
+    AbandonedThenAgain(u8),
 }
 
 #[derive(Clone, Debug, Serialize, Deserialize, PartialEq, Eq, Hash)]
@@ -137,10 +142,11 @@ fn scenario(case: &Case, crash_at_us: Option<u64>, record_events: bool) -> Resul
         let mut pending: Vec<Pending> = Vec::new();
         let mut subs: Vec<(tokio::sync::broadcast::Receiver<PeerEvent>, Vec<PeerId>)> = Vec::new();
         let mut clones: Vec<Network> = Vec::new();
+        let mut held_peer_handles: Vec<anemo::Peer> = Vec::new();
         let mut work = case.work.clone();
         work.sort_by_key(|w| std::cmp::Reverse(match w {
             Work::InboundRpc { before_ms, .. } | Work::OutboundRpc { before_ms, .. } | Work::DialDead { before_ms } | Work::DialFresh { before_ms }
-            | Work::InboundDial { before_ms } | Work::ConnectFlood { before_ms, .. } | Work::Subscribe { before_ms } => *before_ms,
+            | Work::InboundDial { before_ms } | Work::ConnectFlood { before_ms, .. } | Work::Subscribe { before_ms } | Work::HoldPeerHandle { before_ms, .. } => *before_ms,
         }));
         let mut kinds = std::collections::BTreeSet::new();
         let mut next_id = 1u64;
@@ -148,7 +154,7 @@ fn scenario(case: &Case, crash_at_us: Option<u64>, record_events: bool) -> Resul
         for w in &work {
             let before = match w {
                 Work::InboundRpc { before_ms, .. } | Work::OutboundRpc { before_ms, .. } | Work::DialDead { before_ms } | Work::DialFresh { before_ms }
-                | Work::InboundDial { before_ms } | Work::ConnectFlood { before_ms, .. } | Work::Subscribe { before_ms } => (*before_ms as u64).min(T0 - 1),
+                | Work::InboundDial { before_ms } | Work::ConnectFlood { before_ms, .. } | Work::Subscribe { before_ms } | Work::HoldPeerHandle { before_ms, .. } => (*before_ms as u64).min(T0 - 1),
             };
             let at = t_base + T0 - before;
             if let Some(cd) = crash_deadline { if at > t_base + cd { continue; } }
@@ -209,6 +215,10 @@ fn scenario(case: &Case, crash_at_us: Option<u64>, record_events: bool) -> Resul
                     kinds.insert("subscriber");
                     if let Ok(x) = s.net.subscribe() { subs.push(x); }
                 }
+                Work::HoldPeerHandle { peer, .. } => {
+                    kinds.insert("held-peer-handle");
+                    if let Some(h) = s.net.peer(peers[*peer as usize % np].id()) { held_peer_handles.push(h); }
+                }
             }
         }
         // ---- crash-point mode: drop the runtime at the chosen instant; the handles survive
@@ -240,8 +250,12 @@ fn scenario(case: &Case, crash_at_us: Option<u64>, record_events: bool) -> Resul
         let s_net = s.net.clone();
         drop(s); // the Node wrapper: keep only handles we control
         match &case.how {
-            How::Explicit | How::Twice | How::Concurrent(_) => {
-                let n = match &case.how { How::Explicit => 1, How::Twice => 2, How::Concurrent(k) => (*k).clamp(2, 8) as usize, _ => 1 };
+            How::Explicit | How::Twice | How::Concurrent(_) | How::AbandonedThenAgain(_) => {
+                if let How::AbandonedThenAgain(ms) = &case.how {
+                    let net = s_net.clone();
+                    let _ = tokio::time::timeout(std::time::Duration::from_millis(*ms as u64), net.shutdown()).await;
+                }
+                let n = match &case.how { How::Explicit | How::AbandonedThenAgain(_) => 1, How::Twice => 2, How::Concurrent(k) => (*k).clamp(2, 8) as usize, _ => 1 };
                 let mut calls = Vec::new();
                 for _ in 0..n {
                     let net = s_net.clone();
@@ -256,7 +270,8 @@ fn scenario(case: &Case, crash_at_us: Option<u64>, record_events: bool) -> Resul
                         Err(()) => vfail!("c08:shutdown-hang", "shutdown (idle-wait bound {bound} ms) did not return within {} ms; in flight: {:?}", bound + 3_100, kinds),
                     }
                 }
-                vensure!(oks >= 1, "c08:shutdown-refused", "none of {n} shutdown call(s) returned Ok although the network was up (in flight: {:?}, mailbox capacity {:?})", kinds, case.mailbox_cap);
+                // (after an abandoned first call the network may already be down: the second call may then return an error, at once)
+                vensure!(oks >= 1 || matches!(case.how, How::AbandonedThenAgain(_)), "c08:shutdown-refused", "none of {n} shutdown call(s) returned Ok although the network was up (in flight: {:?}, mailbox capacity {:?})", kinds, case.mailbox_cap);
                 let took = sim.now_ms() - t_shutdown;
                 // pending connects are aborted, handlers joined, then the idle wait is bounded by configuration
                 vensure!(took <= bound + 50, "c08:shutdown-slow", "shutdown took {took} ms; configured idle-wait bound is {bound} ms (+50 ms); in flight: {:?}", kinds);
@@ -275,6 +290,18 @@ fn scenario(case: &Case, crash_at_us: Option<u64>, record_events: bool) -> Resul
                 sleep_ms(10).await;
                 waited += 10;
             }
+            if sim.fabric.is_bound(s_addr) && !held_peer_handles.is_empty() {
+                // F8 again: the shutdown may be complete and only the held Peer handles keep the address
+                let key = "c08:address-still-bound:peer-handle-held";
+                held_peer_handles.clear();
+                for _ in 0..10 { if !sim.fabric.is_bound(s_addr) { break; } sleep_ms(10).await; }
+                if !sim.fabric.is_bound(s_addr) {
+                    match crate::core::known_open("C08", key) {
+                        Some(what) => labels2.lock().unwrap().push(format!("KNOWN:{key}:{what}")),
+                        None => vfail!(key, "after dropping every Network handle the address stayed bound until the application's Peer handles were dropped too"),
+                    }
+                }
+            }
             vensure!(!sim.fabric.is_bound(s_addr), "c08:drop-shutdown-incomplete", "after dropping every handle the network did not shut down within {} ms (address still bound); in flight: {:?}", bound + 3_100, kinds);
         }
         let t_after = sim.now_ms();
@@ -285,6 +312,21 @@ fn scenario(case: &Case, crash_at_us: Option<u64>, record_events: bool) -> Resul
             vensure!(net.peers().is_empty(), "c08:peers-after-shutdown", "peers() = {:?} after shutdown", net.peers());
         }
         vensure!(weak.upgrade().is_none(), "c08:weak-upgrades", "NetworkRef::upgrade() still yields a network after shutdown");
+        if sim.fabric.is_bound(s_addr) && !held_peer_handles.is_empty() {
+            // F8: a `Peer` handle the application still holds keeps the (closed) quinn connection alive,
+            // and with it that connection's reference to the endpoint's old socket. Attributed only
+            // if dropping the handles is what frees the address.
+            let n = held_peer_handles.len();
+            held_peer_handles.clear();
+            for _ in 0..10 { if !sim.fabric.is_bound(s_addr) { break; } sleep_ms(10).await; }
+            let key = "c08:address-still-bound:peer-handle-held";
+            if !sim.fabric.is_bound(s_addr) {
+                match crate::core::known_open("C08", key) {
+                    Some(what) => labels2.lock().unwrap().push(format!("KNOWN:{key}:{what}")),
+                    None => vfail!(key, "the socket address is still bound after shutdown returned while the application holds {n} Peer handle(s); it is released only when they are dropped"),
+                }
+            }
+        }
         vensure!(!sim.fabric.is_bound(s_addr), "c08:address-still-bound", "the socket address is still bound after shutdown returned");
         vensure!(s_rec.live_clones() == 0, "c08:service-clone-alive", "{} clone(s) of the user's service are still alive after shutdown (in flight: {:?})", s_rec.live_clones(), kinds);
         // subscribers: a LostPeer for every peer they had, then end of stream
@@ -375,6 +417,7 @@ fn scenario(case: &Case, crash_at_us: Option<u64>, record_events: bool) -> Resul
         if record_events {
             *events_out2.lock().unwrap() = sim.fabric.event_times_us().into_iter().map(|t| t.saturating_sub(t_base * 1000)).collect();
         }
+        drop(held_peer_handles); // held until here: across the shutdown and every check after it
         Ok(Outcome::Done)
     });
     let ev = events_out.lock().unwrap().clone();
@@ -387,7 +430,12 @@ pub fn shutdown_case(case: &Case, obs: &mut Obs) -> Result<(), Fail> {
         None => {
             let (_, _, labels) = scenario(case, None, false)?;
             let kinds = labels.iter().filter(|l| l.starts_with("in-flight:")).count();
-            for l in labels { obs.label(l); }
+            for l in labels {
+                match l.strip_prefix("KNOWN:") {
+                    Some(k) => { let (key, what) = k.split_at(k.find(":peer-handle-held:").map(|i| i + ":peer-handle-held".len()).unwrap_or(k.len())); obs.known.push((key.to_string(), what.trim_start_matches(':').to_string())); obs.label("known-finding:address-bound-while-peer-handle-held"); }
+                    None => obs.label(l),
+                }
+            }
             obs.label(format!("how:{:?}", case.how).split('(').next().unwrap_or("").to_string());
             if kinds >= 2 { obs.nontrivial(case); }
             Ok(())
@@ -443,7 +491,7 @@ impl Part for Shutdowns {
     type Case = Case;
     fn name(&self) -> &'static str { "shutdown-scenarios" }
     fn rule(&self) -> &'static str {
-        "a network with 1-3 peers (reachable or partitioned at the shutdown instant) and a generated mix of work in flight at that instant: inbound RPCs in slow / never-finishing handlers, outbound RPCs to slow peers, dials to a dead address, dials and inbound handshakes caught mid-flight, floods of connect requests into a small mailbox, subscribers; shutdown by one explicit call, two or n concurrent calls, or by dropping every handle; idle-wait bound in {0, 50, 1000, 60000} ms; then calls issued after shutdown; oracle: an explicit shutdown returns Ok within the bound + 50 ms; afterwards is_closed, no peers, address unbound and a new network there accepts a connection, no clone of the user's service alive, subscribers get LostPeer for every peer and then end-of-stream, NetworkRef does not upgrade, reachable remotes report the loss at once and partitioned ones within their idle timeout, every pending call returns, late calls fail at once, no panic; with crash_point: the runtime is dropped at a packet-event time of a reference run and the surviving handles must answer from a fresh runtime without hanging or panicking; non-trivial = >=2 kinds of work in flight, or a runtime drop; distinct by case"
+        "a network with 1-3 peers (reachable or partitioned at the shutdown instant) and a generated mix of work in flight at that instant: inbound RPCs in slow / never-finishing handlers, outbound RPCs to slow peers, dials to a dead address, dials and inbound handshakes caught mid-flight, floods of connect requests into a small mailbox, subscribers; Peer handles the application still holds; shutdown by one explicit call, two or n concurrent calls, a call that is abandoned after 0-60 ms followed by another call, or by dropping every handle; idle-wait bound in {0, 50, 1000, 60000} ms; then calls issued after shutdown; oracle: an explicit shutdown returns Ok within the bound + 50 ms; afterwards is_closed, no peers, address unbound and a new network there accepts a connection, no clone of the user's service alive, subscribers get LostPeer for every peer and then end-of-stream, NetworkRef does not upgrade, reachable remotes report the loss at once and partitioned ones within their idle timeout, every pending call returns, late calls fail at once, no panic; with crash_point: the runtime is dropped at a packet-event time of a reference run and the surviving handles must answer from a fresh runtime without hanging or panicking; non-trivial = >=2 kinds of work in flight, or a runtime drop; distinct by case"
     }
     fn strategy(&self, t: Tier) -> BoxedStrategy<Case> {
         let before = || prop_oneof![2 => 0u16..8, 2 => 8u16..60, 1 => 60u16..500];
@@ -456,8 +504,9 @@ impl Part for Shutdowns {
             2 => before().prop_map(|before_ms| Work::InboundDial { before_ms }),
             1 => (1u8..12, before()).prop_map(|(n, before_ms)| Work::ConnectFlood { n, before_ms }),
             2 => before().prop_map(|before_ms| Work::Subscribe { before_ms }),
+            2 => (0u8..3, before()).prop_map(|(peer, before_ms)| Work::HoldPeerHandle { peer, before_ms }),
         ];
-        let how = prop_oneof![4 => Just(How::Explicit), 1 => Just(How::Twice), 1 => (2u8..6).prop_map(How::Concurrent), 2 => Just(How::DropHandles)];
+        let how = prop_oneof![4 => Just(How::Explicit), 1 => Just(How::Twice), 1 => (2u8..6).prop_map(How::Concurrent), 2 => Just(How::DropHandles), 2 => (0u8..60).prop_map(How::AbandonedThenAgain)];
         let late = prop_oneof![Just(Late::Connect), Just(Late::ConnectPinned), Just(Late::Rpc), Just(Late::Subscribe), Just(Late::Peers), Just(Late::Disconnect), Just(Late::Shutdown)];
         let crash = match t { Tier::Quick => prop::option::weighted(0.25, any::<u16>()), Tier::Thorough => prop::option::weighted(0.4, any::<u16>()) };
         (1u8..4, prop::collection::vec(prop::bool::weighted(0.3), 3), 0u8..4, prop::option::weighted(0.4, 1u8..5), prop::collection::vec(work, 0..8), how, prop::collection::vec(late, 0..5), crash)
